@@ -579,7 +579,10 @@ class Gen:
 
     def bound_tree(self, v):
         """A loop bound with value v: an integer variable holding it (or one more) when there is one."""
-        if self.p["call_in_bounds"] and self.p["calls"] and self.chance(20):
+        if self.p["call_in_bounds"] and self.p["calls"] and getattr(self, "cur_depth", 0) == 0 and self.chance(20):
+            # (only for unguarded statements: the structured back ends put the guard inside the loop nest and so evaluate
+            # the bounds of a guarded statement even when its guard is false - one more call of a pure function than the
+            # interpreter makes, which would make fault plans differ between the back ends)
             # the bound is the result of a user function (evaluated before any counter is set)
             self.features.add("call_in_bound")
             inner = C(v)
@@ -1117,7 +1120,10 @@ class Gen:
         lv = self.choice(self.LV)
         arg = normal(["sum", V(lv), C(self.choice([-2, -1, 0.5, 1.5]))])
         rhs = normal(["sum", ["sub", V(a), [V(lv)]], ["call", "<func>g", [arg], {}]])
+        saved_depth = getattr(self, "cur_depth", 0)
+        self.cur_depth = saved_depth + 1          # the loop below sits under a guard
         loop = ["assign", a, [V(lv)], rhs, [[lv, C(0), self.bound_tree(n)]]]
+        self.cur_depth = saved_depth
         cond = ["cmp", V(v), self.choice([">", "<", ">=", "!="]), C(self.choice([0, 1, 2, -1]))]
         self.features.update(["loop", "if", "guarded_loop_call", "nested_call", "self_update"])
         return ops + [["if", cond, [loop], None]]
@@ -1207,6 +1213,13 @@ class Gen:
         return [["if", cond, then, els]]
 
     def block(self, depth, nops, in_if=False):
+        self.cur_depth = depth       # > 0: the statements being generated are guarded
+        try:
+            return self._block(depth, nops, in_if)
+        finally:
+            self.cur_depth = depth - 1 if depth > 0 else 0
+
+    def _block(self, depth, nops, in_if=False):
         ops = []
         for _ in range(nops):
             kinds = ["real"] * 5 + ["uvec"] * 3 + ["flag", "int", "int", "newarr", "arrwrite", "arrwrite", "arrwhole",
